@@ -17,9 +17,10 @@ from pv import lib_runloop as L
 from pv.core import InfraError, exc_site
 
 KINDS = ["data", "extdata", "window", "eof", "chanreq", "globreq", "globreq-reply", "chanopen", "close",
-         "chanreq-reply"]
+         "chanreq-reply", "chanfailure", "extdata-discarded"]
 LONG = {"globreq-reply": "globalRequestWantReply", "chanopen": "channelOpen", "close": "channelClose",
-        "chanreq-reply": "channelRequestWantReply", "data": "data", "extdata": "extendedData",
+        "chanreq-reply": "channelRequestWantReply", "chanfailure": "channelFailure",
+        "extdata-discarded": "extendedDataDiscarded", "data": "data", "extdata": "extendedData",
         "window": "windowAdjust", "eof": "eof", "chanreq": "channelRequestNoReply", "globreq": "globalRequestNoReply"}
 
 
@@ -44,6 +45,12 @@ def message(kind, cid):
         return L.msg(90, "session", 77, 100000, 30000)
     if kind == "close":
         return L.msg(97, cid)
+    if kind == "chanfailure":
+        return L.msg(100, cid)
+    if kind == "extdata-discarded":
+        # type 2 is not stderr: discarded, but credited — more than a tenth of a 32768-byte window makes the handler
+        # send a WINDOW_ADJUST
+        return L.msg(95, cid, 2, b"d" * 3400)
     raise ValueError(kind)
 
 
@@ -58,7 +65,11 @@ def crossing(role, kind, park):
     sub, peer = pair.subject, pair.peer
     out = {"role": role, "kind": kind}
     try:
-        ch = pair.tc.open_session(timeout=30)
+        if kind == "extdata-discarded":
+            pair.ts.default_window_size = 32768          # the server side's channel window
+            ch = pair.tc.open_session(window_size=32768, timeout=30)
+        else:
+            ch = pair.tc.open_session(timeout=30)
         sch = pair.ts.accept(30)
         if sch is None:
             raise InfraError("accept timed out")
@@ -331,7 +342,7 @@ def gated_send(role):
 def run(ctx):
     L.quiet_logging()
     L.stub_gss()
-    ctx.rule = ("one connection-layer message of each of 10 kinds in flight towards the initiator of a re-exchange, "
+    ctx.rule = ("one connection-layer message of each of 12 kinds in flight towards the initiator of a re-exchange, "
                 "both roles as initiator, with and without a user thread sending on a channel during the exchange; "
                 "distinct = (role, kind, parked sender); non-trivial = the kind has a handler that answers. Plus: a "
                 "user-thread shutdown_write()/sendall()/close() made while a re-exchange is held open, with a "
@@ -486,7 +497,8 @@ META = {
               "order (C11_partial, C11_partial_delivery); and two witnesses that the full statement is false of "
               "today's code: C11_witness_reply (GLOBAL_REQUEST want_reply / CHANNEL_OPEN answered with _send_message "
               "inside the window) and C11_witness_selfblock (CHANNEL_CLOSE / channel request want_reply answered with "
-              "_send_user_message on the transport thread, which then waits for itself). Both are reproduced on the "
+              "_send_user_message on the transport thread, which then waits for itself; likewise CHANNEL_FAILURE via "
+              "_request_failed and discarded extended data via _feed_extended). All are reproduced on the "
               "real code on every run and listed as known findings. Channel.lock as a resource (RekeyLock model, all "
               "interleavings of a user thread and the transport thread): invariant, no deadlock and a termination "
               "bound when the user call releases Channel.lock before _send_user_message, finished runs put the user "
